@@ -38,6 +38,13 @@ CHECKS["C04"] = {
     "technique": "TLA+ spec + TLC (safety and liveness); TLC-generated behaviours replayed into the real library under a watchdog",
 }
 
+CHECKS["C11"] = {
+    "text": "spec/Adapt.tla gives the declared meaning of every descriptor, order list and unit as finite tables and derives compositions; TLC enumerates from x to pairs and checks inverse = exact reverse mapping, adapt to=X = adapt inv from=X, composition through the internal frame, permutation-ness; every derived mapping is compared with the real operators in both directions (full-table replay), together with acceptance/rejection of all 4096 four-letter words x suffixes, every axisswap index list, every unit pair, and the mappings axisswap and adapt share (bit-identical).",
+    "design_ref": "DESIGN.md §5.11",
+    "note": "quick: 448 x 512 descriptor pairs (every axis order and sign, plus horizontal-first unit forms), index lists up to length 4; thorough: all 1920 x 1920 pairs, index lists up to length 5 over -5..5. The unit factor is compared strictly only where the documentation is unambiguous (horizontal axes in positions 1-2); elsewhere source element and sign are compared and the magnitude must be some ratio of declared unit factors. Unit factors transcribed from PROJ's units.c.",
+    "technique": "TLA+ tables + TLC exhaustive enumeration; full-table replay into the real operators",
+}
+
 _claimed = set(CHECKS)
 _NA_FIXED = {
     "C05": NA_REASON_NUMERIC,
